@@ -11,7 +11,7 @@ import (
 
 func init() {
 	register(&Rule{ID: "ORD-11", Title: "metadata names a segment before its file is created",
-		Props: []string{"C01", "C03", "C13"}, Floor: 2, Run: runORD11})
+		Props: []string{"C01", "C03", "C13", "C10", "C04"}, Floor: 2, Run: runORD11})
 	register(&Rule{ID: "ORD-12", Title: "in-memory state is published only after the metadata commit and the post-commit step",
 		Props: []string{"C01", "C04", "C06", "C10"}, Floor: 2, Run: runORD12})
 	register(&Rule{ID: "ORD-13", Title: "finalizers are attached only after commit+publish and run only on the last release",
@@ -720,7 +720,7 @@ func init() {
 	register(&Rule{ID: "ORD-18c", Title: "the not-found sentinel travels unchanged from the segment lookup to WAL.GetLog (it is compared with != on the way and is the API's raft.ErrLogNotFound)",
 		Props: []string{"C05", "C06", "C03", "C11"}, Floor: 5, Run: runORD18c})
 	register(&Rule{ID: "ORD-18b", Title: "the 'tail file does not exist' error keeps its os.ErrNotExist identity from the file system up to Open's errors.Is test",
-		Props: []string{"C03", "C01"}, Floor: 2, Run: runORD18b})
+		Props: []string{"C03", "C01", "C10"}, Floor: 2, Run: runORD18b})
 }
 
 type errLayer struct {
